@@ -30,7 +30,7 @@ ASSUMPTIONS = [
     "non-empty leaf syntenies; family order inside a leaf irrelevant",
     "reference oracles of harness/oracles.py",
 ]
-BUDGET = {"quick": {"random": 1500}, "thorough": {"random": 25000}}
+BUDGET = {"quick": {"random": 5000}, "thorough": {"random": 60000}}
 FUZZ = {"thorough": {"runs": 20000, "max_time": 900}}
 
 
